@@ -51,6 +51,7 @@ type Ev struct {
 	Gate  *ogm.OpenGameState        `json:"gate,omitempty"`
 	PS    *pt.TablePlayerState      `json:"ps,omitempty"`
 	Mono  int64                     `json:"mono"`
+	Wall  int64                     `json:"wall"` // wall clock (unix nanoseconds) when the event was recorded
 	Args  string                    `json:"args,omitempty"`
 }
 
@@ -100,6 +101,7 @@ func cloneTable(t *pt.Table) (*pt.Table, []byte) {
 
 func (s *Sim) push(e *Ev) {
 	e.Mono = Mono()
+	e.Wall = time.Now().UnixNano()
 	s.seq++
 	e.Seq = s.seq
 	s.All = append(s.All, e)
